@@ -37,6 +37,31 @@ SEG_INV = {"elem_inv": {"yaml_path._escaped": _SEG_CLAUSES, "yaml_path._unescape
            "heap_fields": {"NodeCoords.path": "YAMLPath", "NodeCoords.ancestry": "list"}}
 
 
+def WF(node, parent, ref, seg, count="len(yielded) == 1"):
+    """C02 wf_step (and C01 "exactly this child") for the NodeCoords an iteration / a branch yields:
+    it wraps `node`, which sits at parent[ref]; its ancestry is the incoming ancestry plus (parent, ref)
+    (a NEW list); its path is the incoming path plus the rendered reference (a NEW path object);
+    it records the segment that produced it."""
+    return [count,
+            "yielded[0].node is %s and yielded[0].parent is %s and same(yielded[0].parentref, %s)" % (node, parent, ref),
+            "extended_by(yielded[0].ancestry, ancestry, (%s, %s))" % (parent, ref),
+            "path_is(yielded[0].path, translated_path, %s)" % seg,
+            "same(yielded[0].path_segment, pathseg)"]
+
+
+ESC = "YAMLPath.escape_path_section(%s, translated_path.separator)"
+KESC = "YAMLPath.escape_path_section(%s, kw_translated_path.separator)"
+
+
+def WFO(node, parent, ref, seg, i=0):
+    """The same well-formedness clause for the i-th value a whole call yielded (`out`), in terms of the
+    keyword arguments the call received."""
+    return ("(out[%d].node is %s and out[%d].parent is %s and same(out[%d].parentref, %s)"
+            " and extended_by(out[%d].ancestry, kw_ancestry, (%s, %s))"
+            " and path_is(out[%d].path, kw_translated_path, %s))" % (i, node, i, parent, i, ref, i, parent, ref, i, seg))
+
+
+ATTR = "yaml_path._escaped[segment_index][1]"
 KW = {"kw_translated_path": "YAMLPath", "kw_ancestry": "List[Any]"}
 KWP = dict(KW, kw_parent="Any", kw_parentref="Any")
 NC = "Union[NodeCoords, list]"
@@ -48,7 +73,7 @@ class PathAdd:
     assume_fields = {"self._original": "str", "self._separator": "PathSeparators", "self._stringified": "str",
                      "self._escaped": SEGS, "self._unescaped": SEGS}
     raises = []
-    opts = {"returns": "YAMLPath"}
+    opts = {"returns": "YAMLPath", "event": "('add', self, other, result)"}
 
 
 @contract(PR + "_get_nodes_by_index", props=["C15"])
@@ -63,13 +88,33 @@ class ByIndex:
 
 
 
-@contract(PR + "_get_nodes_by_key", props=["C15"])
+@contract(PR + "_get_nodes_by_key", props=["C15", "C01", "C02"])
 class ByKey:
+    """KEY segment.  On a hash: exactly the value under that key (well-formed coordinates), nothing when the key
+    is absent and is not an integer literal.  On a sequence with an integer literal: that element, nothing when
+    out of range.  Pass-through: each element is handed to the dispatcher with its own index, path and ancestry."""
     params = dict(KW, yaml_path="YAMLPath", segment_index="int", kw_traverse_lists="bool")
     assume_fields = PATH_FIELDS
     requires = PARSED
     inline = [YP + "escaped", YP + "unescaped"]
     raises = ["YAMLPathException"]
+    ensures = [
+        "implies(isinstance(data, dict) and %s in data, len(out) == 1 and %s)" % (ATTR, WFO("data[%s]" % ATTR, "data", ATTR, KESC % ("str(%s)" % ATTR))),
+        "implies(isinstance(data, dict) and not (%s in data) and not int_ok(str(%s)), len(out) == 0)" % (ATTR, ATTR),
+        "implies(isinstance(data, list) and int_ok(str({a})) and -len(data) <= int(str({a})) and int(str({a})) < len(data),"
+        " len(out) == 1 and {wf})".format(a=ATTR, wf=WFO("data[int(str(%s))]" % ATTR, "data", "int(str(%s))" % ATTR, "'[{}]'.format(int(str(%s)))" % ATTR)),
+        "implies(isinstance(data, list) and int_ok(str({a})) and not (-len(data) <= int(str({a})) and int(str({a})) < len(data)), len(out) == 0)".format(a=ATTR),
+        "implies(not isinstance(data, (dict, list, set, CommentedSet)), len(out) == 0)",
+    ]
+    loops = {
+        "for eleidx, element in enumerate(data)": {"body_ensures": [
+            # the element is evaluated at the same segment with its own coordinates (what 933aafa repaired)
+            "called('segment') == 1",
+            "call_event('segment')[1] is element and call_event('segment')[2] is data and same(call_event('segment')[3], eleidx)",
+            "path_is(call_event('segment')[4], translated_path, '[{}]'.format(eleidx))",
+            "extended_by(call_event('segment')[5], ancestry, (data, eleidx))",
+        ]},
+    }
     opts = dict(SEG_INV, yields=NC)
 
 
@@ -94,13 +139,20 @@ class BySearch:
     opts = dict(SEG_INV, yields=NC)
 
 
-@contract(PR + "_get_nodes_by_match_all_unfiltered", props=["C15"])
+@contract(PR + "_get_nodes_by_match_all_unfiltered", props=["C15", "C01", "C02"])
 class MatchAllUnfiltered:
+    """`*` as the last segment: every immediate child, once, in document order, each with well-formed
+    coordinates (per-iteration post-conditions; the lift to the whole result is for-loop semantics)."""
     params = dict(KWP, yaml_path="YAMLPath", segment_index="int")
     assume_fields = PATH_FIELDS
     requires = PARSED
     inline = [YP + "escaped", YP + "unescaped"]
     raises = ["YAMLPathException"]
+    loops = {
+        "for key, val in data.items()": {"body_ensures": WF("val", "data", "key", ESC % "key")},
+        "for idx, ele in enumerate(data)": {"body_ensures": WF("ele", "data", "idx", "'[{}]'.format(idx)")},
+        "for ele in data": {"body_ensures": WF("ele", "data", "ele", ESC % "ele")},
+    }
     opts = dict(SEG_INV, yields=NC)
 
 
@@ -143,7 +195,7 @@ class ByPathSegment:
     requires = INV + ["0 <= segment_index"]
     inline = [YP + "escaped", YP + "unescaped"]
     raises = ["YAMLPathException"]
-    opts = dict(SEG_INV, yields=NC)
+    opts = dict(SEG_INV, yields=NC, event="('segment', data, kw_parent, kw_parentref, kw_translated_path, kw_ancestry)")
 
 
 @contract(PR + "_get_nodes_by_keyword_search", props=["C15"])
